@@ -379,14 +379,18 @@ class Interp:
                 return h, args
         tr = c.get('trait') or ''
         # opt-in: growable vectors built in this body are concrete element lists (Vec::new / with_capacity, then push on the local)
-        if self.vec_model and not c.get('local') and 'vec::Vec' in d:
+        if self.vec_model and not c.get('local') and ('vec::Vec' in d or (name == 'extend' and path_endswith(tr, 'iter::Extend'))):
             if name in ('new', 'with_capacity') and len(args) <= 1:
                 return ('tuple', ()), args
-            if name == 'push' and len(args) == 2 and args[0][0] == 'tuple':
+            if name in ('push', 'extend') and len(args) == 2 and args[0][0] == 'tuple' and (name == 'push' or is_adt(args[1], 'option::Option') or args[1][0] == 'tuple'):
+                if name == 'extend':
+                    add = ((args[1][4][0],) if args[1][3] == 'Some' else ()) if args[1][0] == 'adt' else args[1][1]
+                else:
+                    add = (args[1],)
                 pl = op_place(t['args'][0])
                 root = resolve_place(fn, pl) if pl is not None else None
                 if root is not None and not root['p'] and env.get(root['l'], UNK) == args[0]:
-                    env[root['l']] = ('tuple', args[0][1] + (args[1],))
+                    env[root['l']] = ('tuple', args[0][1] + tuple(add))
                     # the `&mut` local that was passed sees the same vector
                     if pl is not None and not pl['p']:
                         env[pl['l']] = env[root['l']]
@@ -462,6 +466,17 @@ class Interp:
                         return (SOME(el[-1]) if el else NONE), args
                     if name in ('to_vec', 'into_vec', 'into', 'from', 'as_slice', 'as_mut_slice'):
                         return args[0], args
+                if len(args) == 2 and name in ('index', 'get') and args[1][0] == 'adt' and args[1][1].split('::')[-1] in ('RangeFrom', 'RangeTo', 'Range', 'RangeFull') \
+                        and all(x[0] == 'c' and isinstance(x[1], int) for x in args[1][4]):
+                    # sub-slice with constant bounds
+                    kind = args[1][1].split('::')[-1]
+                    b = [x[1] for x in args[1][4]]
+                    lo, hi = {'RangeFrom': (b[0], len(el)) if b else (0, 0), 'RangeTo': (0, b[0]) if b else (0, 0), 'Range': (b[0], b[1]) if len(b) == 2 else (0, 0), 'RangeFull': (0, len(el))}[kind]
+                    if 0 <= lo <= hi <= len(el):
+                        sub = ('tuple', tuple(el[lo:hi]))
+                        return (sub if name == 'index' else SOME(sub)), args
+                    if name == 'get':
+                        return NONE, args
                 if len(args) == 2 and args[1][0] == 'c' and isinstance(args[1][1], int) and not isinstance(args[1][1], bool):
                     i = args[1][1]
                     if name in ('get', 'get_mut'):
